@@ -99,8 +99,28 @@ async def _run(loop, sc):
             p.src = core_event.FifoQueueEventSource(producer=p)
             srcs.append(p.src)
             d.subscribe(p.src, make_handler(i))
+        class TwinJob:
+            """one callable scheduled several times for the same instant: each run takes the next job id"""
+            def __init__(self, jids, when):
+                self.jids, self.when = list(jids), when
+
+            async def run(self):
+                jid = self.jids.pop(0)
+                running[0] += 1
+                log.append(("job", jid, self.when, ms(fake_now()), running[0]))
+                running[0] -= 1
+        twins = sc.get("twins", {})
+        twin_objs = {}
         for when, jid, dur in sc["jobs"]:
-            d.schedule(when_dt(when, jid), make_job(jid, when, dur))
+            lead = twins.get(str(jid))
+            is_lead = any(int(v) == jid for v in twins.values())
+            if lead is not None or is_lead:
+                key = int(lead) if lead is not None else jid
+                if key not in twin_objs:
+                    twin_objs[key] = TwinJob([key] + [int(k) for k, v in twins.items() if int(v) == key], when)
+                d.schedule(when_dt(when, jid), twin_objs[key].run)
+            else:
+                d.schedule(when_dt(when, jid), make_job(jid, when, dur))
             log.append(("sched", when, jid, 0))
         for k in range(sc["n_idle"]):
             def mk(k):
@@ -331,6 +351,18 @@ def gen_scenario(rnd, model=False):
             job_tz[str(f[1])] = rnd.choice([0, 0, -300, 330])
     return {"sources": sources, "jobs": jobs, "bev": bev, "raise": rz, "n_idle": rnd.choice([0, 1, 2]),
             "mc": 50 if model else rnd.choice([1, 2, 5, 50]), "end": end, "job_tz": job_tz}
+
+
+def gen_stale(rnd, n=150):
+    """One source that keeps producing events older than the newest one already delivered: every one of them has to be
+    dropped and reported, not only the first few."""
+    arr = [[0, 1000, 1, 0]]
+    for k in range(n):
+        arr.append([5 + 2 * k, 900 - k, 2 + k, 0])
+    twin = rnd.choice([50, 200])
+    # the same callable scheduled twice for the same instant: both runs are due
+    return {"sources": [arr], "jobs": [[twin, 1, 0], [twin, 2, 0], [400, 3, 0]], "bev": {}, "raise": {}, "n_idle": 0,
+            "mc": rnd.choice([5, 50]), "end": 1500, "job_tz": {}, "twins": {"2": 1}}
 
 
 def gen_burst(rnd, n=700):
